@@ -33,6 +33,8 @@ type rawReq struct {
 	method string
 	nonce  int64
 	answers int
+	got     simrt.Event // set when a response with this id has been read (or the peer's reader ended)
+	reused  *rawReq     // on a later request with a fresh id: the re-used-id request sent just before it
 }
 
 type rawPeer struct {
@@ -43,6 +45,7 @@ type rawPeer struct {
 	sent  []*rawReq
 	script []int
 	closed bool
+	readerGone bool
 }
 
 type rawDialer struct{ end *simnet.End }
@@ -70,6 +73,12 @@ type rawMsg struct {
 func (p *rawPeer) reader() {
 	r := p.r
 	br := bufio.NewReader(p.end)
+	defer func() {
+		p.readerGone = true
+		for _, q := range p.sent {
+			q.got.Set()
+		}
+	}()
 	for {
 		length := 0
 		for {
@@ -112,6 +121,19 @@ func (p *rawPeer) reader() {
 				continue
 			}
 			hit.answers++
+			hit.got.Set()
+			if q3 := lastWithID(p.sent, id); q3 != nil && q3.reused != nil && len(m.Error) == 0 {
+				// A accepted and answered (with a result) a request that was sent AFTER the
+				// one re-using an id whose previous response the peer had already received:
+				// A read that one earlier, was not shutting down then, and answers in order —
+				// so its response must have arrived by now.
+				first := firstWithID(p.sent, q3.reused.id)
+				if first.answers < 2 {
+					r.fail("oracle:unanswered-call", fmt.Sprintf("the peer re-used id %s after receiving its response; that request was never answered although the request sent after it (id %s) was", q3.reused.id, id), "a call re-using a retired id is never answered")
+				} else {
+					r.sim.Probe("raw-peer-reused-retired-id-answered")
+				}
+			}
 			if hit.answers > n {
 				r.fail("oracle:duplicate-response", fmt.Sprintf("A sent %d responses for id %s (%d requests carried it)", hit.answers, id, n), "incoming call answered more than once")
 			}
@@ -219,6 +241,24 @@ func (p *rawPeer) caller() {
 			r.aClosing.Wait("raw.caller waits for A to start closing")
 			p.write(fmt.Sprintf(`{"jsonrpc":"2.0","id":%s,"method":"echo","params":{"nonce":%d}}`, id, nonce+1))
 			r.sim.Fault("peer:duplicate-request-id-while-closing")
+		case 7: // an id re-used as soon as its response has been received (legal), then a fresh one
+			id := fmt.Sprint(9500 + i)
+			q1 := &rawReq{id: id, method: "echo", nonce: nonce}
+			p.sent = append(p.sent, q1)
+			if p.write(fmt.Sprintf(`{"jsonrpc":"2.0","id":%s,"method":"echo","params":{"nonce":%d}}`, id, nonce)) != nil || p.readerGone {
+				break
+			}
+			q1.got.Wait("raw.caller waits for the response before re-using its id")
+			if p.readerGone || q1.answers == 0 {
+				break
+			}
+			q2 := &rawReq{id: id, method: "echo", nonce: nonce + 1}
+			id3 := fmt.Sprint(9600 + i)
+			q3 := &rawReq{id: id3, method: "echo", nonce: nonce + 2, reused: q2}
+			p.sent = append(p.sent, q2, q3)
+			p.write(fmt.Sprintf(`{"jsonrpc":"2.0","id":%s,"method":"echo","params":{"nonce":%d}}`, id, nonce+1))
+			p.write(fmt.Sprintf(`{"jsonrpc":"2.0","id":%s,"method":"echo","params":{"nonce":%d}}`, id3, nonce+2))
+			r.sim.Fault("peer:id-reused-after-its-response")
 		case 5: // a response nobody asked for
 			// (an id A never uses: whether a response that races with the
 			// registration of a call counts is undecidable from outside)
@@ -226,6 +266,24 @@ func (p *rawPeer) caller() {
 			r.sim.Fault("peer:response-before-request")
 		}
 	}
+}
+
+func firstWithID(l []*rawReq, id string) *rawReq {
+	for _, q := range l {
+		if q.id == id {
+			return q
+		}
+	}
+	return nil
+}
+
+func lastWithID(l []*rawReq, id string) *rawReq {
+	for i := len(l) - 1; i >= 0; i-- {
+		if l[i].id == id {
+			return l[i]
+		}
+	}
+	return nil
 }
 
 func (r *c39run) startRaw() {
